@@ -17,7 +17,10 @@ import RawPanelVerif.Lemmas.TileBarCover
 
 `Tile.renderTile` is the model of `WriteDisplayTileNew` (validated against the real renderer on every run); it is a
 function of the text state and the geometry, hence deterministic by construction (the harness renders every state in
-the order A, B, A, B — B = the same state in the other font face of the same cell width — and compares).
+the order A, B, C, A, B, C — B, C = the same state in the other font faces — and compares; compares with a rendering by a
+fresh process; and renders the state before and after a *sibling* state with absent sub-messages was rendered and every
+field of the sub-messages the renderer filled into it was then edited by its owner: `fillNil` gives each filled state its
+own empty sub-messages, `tile_argument_ok`, so nothing a caller writes there can reach another state).
 For **every** text state (any formatting value, pair mode, icons, scale, fonts, sizes, strings, integers, colours, absent
 sub-messages) and every geometry (any `w, h ≥ 0`, any integer shrink / border):
 
